@@ -115,6 +115,9 @@ class Full(Engine):
             for i in range(len(seq) - 2, -1, -1):
                 res = self.ite(hits[i], i, res)
             return res
+        if isinstance(fn, types.BuiltinMethodType) and fn.__name__ == "to_bytes" and isinstance(getattr(fn, "__self__", None), int) \
+                and any(self.is_sym(a) for a in list(args) + list(kwargs.values())):
+            return self.to_bytes(self.const(int(fn.__self__)), args, kwargs, pc)
         b = self.builtin(fn, args, kwargs, pc)
         if b is not NotImplemented:
             return b
@@ -197,6 +200,8 @@ class Full(Engine):
                 return r
         if cls in _LOCK_TYPES or cls in (threading.Lock, threading.RLock, threading.Event):
             return Opaque("lock")
+        if cls is collections.OrderedDict and not args and not kwargs:
+            return SDict()
         if cls is threading.Timer:
             a = list(args)
             delay = a[0] if a else kwargs.get("interval")
@@ -427,6 +432,9 @@ class Full(Engine):
         m = getattr(fn, "__module__", None)
         if m == "math" or fn in (math.sqrt, math.sin, math.cos):
             return self.math_fn(fn, args, pc, anysym)
+        if getattr(fn, "__self__", None) is dict and getattr(fn, "__name__", "") == "fromkeys":
+            val = args[1] if len(args) > 1 else None
+            return SDict([(self._lb(c), x, val, False) for c, x in self.iterate(args[0], pc)])
         if fn is typing.cast:
             return args[1]
         if fn is _copy.deepcopy or fn is _copy.copy:
@@ -511,6 +519,8 @@ class Full(Engine):
             self.raises.append((pc, TypeError))
             return 0
         if isinstance(v, Opaque):
+            if getattr(v, "length", None) is not None:
+                return v.length
             raise Unsupported("len of opaque")
         if v is None:
             self.raises.append((pc, TypeError))
@@ -607,6 +617,8 @@ class Full(Engine):
             v = args[0]
             if isinstance(v, SBytes):
                 return v
+            if isinstance(v, Opaque) and getattr(v, "term", None) is not None:
+                return v                     # bytes(ideal byte string)
             if not anysym:
                 return bytes(*args, **kwargs)
             if isinstance(v, SList):
@@ -761,6 +773,14 @@ class Full(Engine):
         n = args[0] if args else kwargs.get("length", 1)
         order = args[1] if len(args) > 1 else kwargs.get("byteorder", "big")
         signed = kwargs.get("signed", False)
+        if self.is_sym(n) and not self.is_sym(signed) and not signed and self.mode == "int":
+            # byte string of symbolic length: kept as an ideal string standing for the integer (length = n)
+            bad = x < 0
+            if self.pybool(z3.simplify(bad)) is not False:
+                self.raises.append((z3.And(pc, bad), OverflowError))
+            o = Opaque("int-bytes")
+            o.term, o.length, o.src, o.slicer = x, n, None, None
+            return o
         if self.is_sym(n) or self.is_sym(signed):
             raise Unsupported("to_bytes symbolic length/signed flag")
         if isinstance(x, z3.BoolRef):
@@ -843,7 +863,14 @@ class Full(Engine):
             if name == "to_bytes":
                 return self.to_bytes(o, args, kwargs, pc)
             if name == "bit_length":
-                raise Unsupported("bit_length on symbolic int")
+                if self.mode != "int":
+                    raise Unsupported("bit_length on symbolic int (bv mode)")
+                x = z3.If(o >= 0, o, -o)
+                r = z3.IntVal(64)
+                for kbits in range(63, -1, -1):
+                    r = z3.If(x < 2 ** kbits, kbits, r)
+                self.unwind.append(z3.And(pc, x >= 2 ** 64))          # values beyond 64 bits are outside the encoding
+                return r
             if name == "is_integer":
                 return z3.ToReal(z3.ToInt(o)) == o
             raise Unsupported(f"method {name} on term")
@@ -1027,6 +1054,8 @@ class Full(Engine):
             return None
         if name == "__contains__":
             return self.sdict_lookup(o, args[0], pc)[0]
+        if name == "move_to_end":
+            return None               # insertion order is not observable through the modelled operations
         raise Unsupported(f"dict.{name}")
 
 
